@@ -597,4 +597,52 @@ theorem SelfSupporting.cons {ext seg R} (t : Tr) (h : SelfSupporting ext seg R) 
   · exact Or.inr (Or.inl (by simp only [instCols, List.flatMap_cons, List.mem_append]; exact Or.inr h1))
   · exact Or.inr (Or.inr ⟨comp, List.mem_cons_of_mem _ hm, hid, hr⟩)
 
+/-! ### the recursion over sub-queries inherits well-formedness -/
+
+theorem scanRev_rest_suffix (decls : List Comp) (rev : List Tr) (s : Scan) :
+    (scanRev decls rev s).2.reverse <:+ rev := by
+  induction rev generalizing s with
+  | nil => simp [scanRev]
+  | cons t before ih =>
+    simp only [scanRev]
+    cases hs : scanStep decls s t with
+    | mk o x =>
+      cases o with
+      | some s' =>
+        simp only
+        exact List.IsSuffix.trans (ih s') (List.suffix_cons t before)
+      | none => simp
+
+theorem wfRev_suffix (l₁ l₂ : List Tr) (h : l₁ <:+ l₂) (hw : wfRev l₂ = true) : wfRev l₁ = true := by
+  induction l₂ with
+  | nil =>
+    have : l₁ = [] := List.eq_nil_of_suffix_nil h
+    subst this; exact hw
+  | cons t rest ih =>
+    rcases List.suffix_cons_iff.1 h with rfl | h'
+    · exact hw
+    · exact ih h' (wfRev_cons t rest hw).2.2
+
+/-- the pipeline that stays in front, closed by the Select of the missing columns, is again a well-formed input of
+`extract_atomic` whose output columns are the missing columns: the hypothesis of the scope theorem is inherited by every
+level of the recursion over sub-queries -/
+theorem preceding_wf (decls : List Comp) (p : List Tr) (out : List CId) (hwf : wfPipe p out = true) :
+    wfPipe ((splitOffBack decls p out).rest ++ [.select (splitOffBack decls p out).missing])
+      (splitOffBack decls p out).missing = true := by
+  have hmiss := (split_scope decls p out hwf).2.2.2.2.1
+  simp only [wfPipe, Bool.and_eq_true, List.all_eq_true, List.contains_iff_mem] at hwf ⊢
+  obtain ⟨hrev, _⟩ := hwf
+  have hsuf : (splitOffBack decls p out).rest.reverse <:+ p.reverse :=
+    scanRev_rest_suffix decls p.reverse _
+  have hrest : wfRev (splitOffBack decls p out).rest.reverse = true := wfRev_suffix _ _ hsuf hrev
+  constructor
+  · simp only [List.reverse_append, List.reverse_cons, List.reverse_nil, List.nil_append, List.singleton_append,
+      wfRev, Tr.reads, Tr.defs, Tr.inst, List.all_nil, Bool.and_true, List.all_eq_true,
+      Bool.or_eq_true, List.contains_iff_mem, hrest]
+    exact fun c hc => Or.inl ((mem_defsOf_reverse _ c).2 (hmiss c hc))
+  · intro c hc
+    have := hmiss c hc
+    simp only [defsOf, List.flatMap_append, List.mem_append] at this ⊢
+    exact Or.inl this
+
 end Lemmas.Anchor
